@@ -24,7 +24,7 @@ from .c10 import PREFIXES, YEAROPTS, _mode_args, line_marker
 ID = "C07"
 MODULE = "mc.checks.c07"
 HOLDERS = ["Jane Doe", "Jane Doe <jane@example.com>", "Müller & Söhne GmbH", "Acme, Inc. (\"ACME\") 100%"]
-PRIORS = ["empty", "code", "foreign-header", "binary-looking", "ignore-block-top", "ignore-block-after-code", "unparseable-tag"]
+PRIORS = ["empty", "code", "foreign-header", "binary-looking", "ignore-block-top", "ignore-block-after-code", "unparseable-tag", "ignore-block-below-header"]
 TARGETS = ["in-file", "force-dot-license", "fallback-dot-license", "binary", "uncommentable"]
 S3_STYLES = ["python", "c", "html", "cpp", "jinja", "lisp"]
 S3_TEMPLATES = [None, "full", "nocontrib", "nolicence", "nocopyright", "nothing", "hash.commented", "nolicence.commented", "nothing.commented"]
@@ -167,6 +167,16 @@ def prior_text(kind, style_cls):
         return "", [], []
     if kind == "code":
         return "first line of content\nsecond line\n", [], []
+    if kind == "ignore-block-below-header":
+        # the file's own header, and directly below it (no blank line) a comment that opens an ignore block around a quoted tag
+        try:
+            head = style_cls.create_comment("SPDX-FileCopyrightText: 2001 Old Holder\nSPDX-License-Identifier: ISC")
+            start, end = style_cls.create_comment("REUSE-IgnoreStart"), style_cls.create_comment("REUSE-IgnoreEnd")
+        except Exception:
+            return "first line of content\nsecond line\n", [], []
+        # (the quoted tag stands on a line of its own, as in a here-document: were the block opened, it would parse)
+        text = head + "\n" + start + "\ncat <<EOF\nSPDX-License-Identifier: Zlib\nEOF\n" + end + "\nlast line\n"
+        return text, ["SPDX-FileCopyrightText: 2001 Old Holder"], ["ISC"]
     if kind == "unparseable-tag":
         # the slash notation many Rust crates use: not an SPDX expression, so the linter cannot read the file at all
         try:
@@ -266,7 +276,7 @@ def ev_S1(c) -> R:
         r.outcome, r.nontrivial = "n/a", False
         return r
     text, pc, pl = prior_text(c["prior"], cls)
-    if uncommentable and c["prior"] == "foreign-header":
+    if uncommentable and c["prior"] in ("foreign-header", "ignore-block-below-header"):
         # .license sibling replaces the file's own content: prior info is hidden by design (C04)
         pc, pl = [], []
     root = fresh_dir("c07")
